@@ -33,12 +33,17 @@ def ftypeOfName : String → Option FType
   | "f32" => some .f32 | "f64" => some .f64 | "bool" => some .bool
   | _ => none
 
-/-- `split_type`: `(local, Some prefix)` when there is a colon (split once) -/
+/-- the characters before the first `:` and those after it -/
+def splitAtColon : List Char → Option (List Char × List Char)
+  | [] => none
+  | c :: cs => if c == ':' then some ([], cs) else (splitAtColon cs).map (fun ab => (c :: ab.1, ab.2))
+
+/-- `split_type`: `(local, Some prefix)` when there is a colon (split once); unprefixed: the default namespace
+    (bound to the empty prefix), if any -/
 def splitType (t : String) : String × Option String :=
-  match t.splitOn ":" with
-  | [] => (t, some "")
-  | [_] => (t, some "")   -- unprefixed: the default namespace (bound to the empty prefix), if any
-  | p :: rest => (":".intercalate rest, some p)
+  match splitAtColon t.toList with
+  | none => (t, some "")
+  | some (p, rest) => (String.ofList rest, some (String.ofList p))
 
 /-- `xml_name_to_rust_name` -/
 def xmlNameToRustName (n : String) : String :=
